@@ -24,7 +24,8 @@ use std::time::Duration;
 use cas_client::remote_client::PREFIX_DEFAULT;
 use cas_client::{CacheConfig, FileProvider, OutputProvider, RemoteClient};
 use cas_object::{serialize_chunk, CompressionScheme};
-use cas_types::{CASReconstructionFetchInfo, CASReconstructionTerm, ChunkRange, FileRange, HexMerkleHash, HttpRange, Key};
+use cas_client::ReconstructionClient;
+use cas_types::{CASReconstructionFetchInfo, CASReconstructionTerm, ChunkRange, FileRange, HexMerkleHash, HttpRange, Key, QueryReconstructionResponse};
 use merklehash::{compute_data_hash, MerkleHash};
 use rand::rngs::StdRng;
 use rand::{Rng, SeedableRng};
@@ -44,6 +45,46 @@ struct Store {
     blobs: HashMap<String, Arc<Vec<u8>>>, // path -> serialized chunk section of a xorb
     delay_ms: HashMap<String, u64>,
     hits: usize,
+    /// CAS reconstruction endpoint: file hash (hex) -> the file's terms (with their lengths) and fetch info
+    files: HashMap<String, (Vec<CASReconstructionTerm>, HashMap<HexMerkleHash, Vec<CASReconstructionFetchInfo>>)>,
+    /// misbehaviour of the blob store for a path
+    faults: HashMap<String, StoreFault>,
+}
+
+#[derive(Clone, Copy, Debug, PartialEq)]
+enum StoreFault {
+    /// the start of the range is ignored: bytes 0..=b are served (Content-Length says so)
+    IgnoresRangeStart,
+    /// the answer stops `n` bytes early (Content-Length says so)
+    Short(usize),
+    /// the right bytes, but chunked transfer encoding (no Content-Length)
+    NoContentLength,
+}
+
+/// What a CAS server answers for a (ranged) reconstruction query: the terms overlapping [start, end) and the offset of `start` in
+/// the first of them.
+fn reconstruction_json(terms: &[CASReconstructionTerm], fetch: &HashMap<HexMerkleHash, Vec<CASReconstructionFetchInfo>>, range: Option<(u64, u64)>) -> Option<String> {
+    let total: u64 = terms.iter().map(|t| t.unpacked_length as u64).sum();
+    let (start, end) = range.map(|(a, b)| (a, (b + 1).min(total))).unwrap_or((0, total));
+    if start >= end && total > 0 {
+        return None;
+    }
+    let mut listed = vec![];
+    let mut offset = 0;
+    let mut pos = 0u64;
+    for t in terms {
+        let t_end = pos + t.unpacked_length as u64;
+        if t_end > start && pos < end {
+            if listed.is_empty() {
+                offset = start - pos;
+            }
+            listed.push(t.clone());
+        }
+        pos = t_end;
+    }
+    let used: std::collections::HashSet<HexMerkleHash> = listed.iter().map(|t| t.hash).collect();
+    let response = QueryReconstructionResponse { offset_into_first_range: offset, terms: listed, fetch_info: fetch.iter().filter(|(h, _)| used.contains(h)).map(|(h, v)| (*h, v.clone())).collect() };
+    serde_json::to_string(&response).ok()
 }
 
 fn serve(mut stream: TcpStream, store: Arc<Mutex<Store>>) {
@@ -66,7 +107,9 @@ fn serve(mut stream: TcpStream, store: Arc<Mutex<Store>>) {
             }
             let lower = l.to_ascii_lowercase();
             if let Some(v) = lower.strip_prefix("range:") {
-                if let Some((a, b)) = v.trim().strip_prefix("bytes=").and_then(|r| r.split_once('-')) {
+                // blob store requests say "bytes=a-b", the reconstruction endpoint is asked with a bare "a-b"
+                let v = v.trim();
+                if let Some((a, b)) = v.strip_prefix("bytes=").unwrap_or(v).split_once('-') {
                     if let (Ok(a), Ok(b)) = (a.parse(), b.parse()) {
                         range = Some((a, b));
                     }
@@ -75,11 +118,36 @@ fn serve(mut stream: TcpStream, store: Arc<Mutex<Store>>) {
         }
         let target = request_line.split_whitespace().nth(1).unwrap_or("/").to_string();
         let path = target.split('?').next().unwrap_or("/").to_string();
-        let (blob, delay) = {
+        if let Some(file) = path.strip_prefix("/reconstruction/") {
+            let json = {
+                let s = store.lock().unwrap();
+                s.files.get(file).and_then(|(terms, fetch)| reconstruction_json(terms, fetch, range.map(|(a, b)| (a as u64, b as u64))))
+            };
+            let (status, body) = match json { Some(j) => ("200 OK", j), None => ("404 Not Found", "{}".to_string()) };
+            let response = format!("HTTP/1.1 {status}\r\nContent-Length: {}\r\nContent-Type: application/json\r\n\r\n{body}", body.len());
+            if stream.write_all(response.as_bytes()).is_err() {
+                return;
+            }
+            continue;
+        }
+        let (blob, delay, fault) = {
             let mut s = store.lock().unwrap();
             s.hits += 1;
-            (s.blobs.get(&path).cloned(), s.delay_ms.get(&path).copied().unwrap_or(0))
+            (s.blobs.get(&path).cloned(), s.delay_ms.get(&path).copied().unwrap_or(0), s.faults.get(&path).copied())
         };
+        if let (Some(b), Some((a, e)), Some(f)) = (&blob, range, fault) {
+            if a <= e && e < b.len() {
+                let response = match f {
+                    StoreFault::IgnoresRangeStart => { let body = &b[0..=e]; let mut r = format!("HTTP/1.1 206 Partial Content\r\nContent-Length: {}\r\n\r\n", body.len()).into_bytes(); r.extend_from_slice(body); r },
+                    StoreFault::Short(n) => { let body = &b[a..=e.saturating_sub(n).max(a)]; let mut r = format!("HTTP/1.1 206 Partial Content\r\nContent-Length: {}\r\n\r\n", body.len()).into_bytes(); r.extend_from_slice(body); r },
+                    StoreFault::NoContentLength => { let body = &b[a..=e]; let mut r = format!("HTTP/1.1 206 Partial Content\r\nTransfer-Encoding: chunked\r\n\r\n{:x}\r\n", body.len()).into_bytes(); r.extend_from_slice(body); r.extend_from_slice(b"\r\n0\r\n\r\n"); r },
+                };
+                if stream.write_all(&response).is_err() {
+                    return;
+                }
+                continue;
+            }
+        }
         if delay > 0 {
             std::thread::sleep(Duration::from_millis(delay));
         }
@@ -383,6 +451,122 @@ fn run_plan(env: &Env, rng: &mut StdRng, plan: &Plan, note: &str, stale_every: u
 }
 
 // ---------------------------------------------------------------------------------------------------------------------------------
+// get_file: the reconstruction query answered by the in-process CAS endpoint, then the writer chosen by
+// HF_XET_RECONSTRUCT_WRITE_SEQUENTIALLY (the program runs this section a second time in a child process with that variable set)
+// ---------------------------------------------------------------------------------------------------------------------------------
+
+fn get_file_run(env: &Env, client: &Arc<RemoteClient>, hash: MerkleHash, range: Option<FileRange>, out: PathBuf) -> Result<u64, String> {
+    let client = client.clone();
+    let r = env.tp.external_run_async_task(async move {
+        let output = OutputProvider::File(FileProvider::new(out));
+        client.get_file(&hash, range, &output, None).await
+    });
+    match r {
+        Ok(Ok(n)) => Ok(n),
+        Ok(Err(e)) => Err(format!("returns the error: {e}")),
+        Err(e) => Err(format!("panics / is aborted: {e}")),
+    }
+}
+
+fn get_file_section(env: &Env, rng: &mut StdRng, base: &str, store: &Arc<Mutex<Store>>, plans: &[Plan]) {
+    let writer = if std::env::var("HF_XET_RECONSTRUCT_WRITE_SEQUENTIALLY").is_ok() { "sequential writer (HF_XET_RECONSTRUCT_WRITE_SEQUENTIALLY=true)" } else { "parallel writer (default)" };
+    let plain = Arc::new(RemoteClient::new(env.tp.clone(), base, None, &None, &None, PathBuf::new(), false));
+    for plan in plans {
+        let hash = compute_data_hash(format!("file of plan {}", plan.name).as_bytes());
+        store.lock().unwrap().files.insert(hash.hex(), (plan.api_terms(0, plan.terms.len()), plan.fetch.clone()));
+        let file: Vec<u8> = (0..plan.terms.len()).flat_map(|t| plan.term_data(t)).collect();
+        let mut starts = vec![0u64];
+        for t in 0..plan.terms.len() {
+            starts.push(starts.last().unwrap() + plan.term_data(t).len() as u64);
+        }
+        let n = plan.terms.len();
+        let total = file.len() as u64;
+        let mut ranges: Vec<(Option<(u64, u64)>, String)> = vec![(None, "the whole file".into()), (Some((0, total)), "the whole file as a range".into()), (Some((total - 1, total)), "the last byte".into())];
+        for (t, label) in [(0usize, "first"), (n / 2, "a middle"), (n - 1, "the last")] {
+            let (a0, a1) = (starts[t], starts[t + 1]);
+            let a = a0 + rng.random_range(0..(a1 - a0));
+            ranges.push((Some((a, a + 1)), format!("a single byte inside {label} term (#{t})")));
+            ranges.push((Some((a, a1)), format!("from inside {label} term (#{t}) to its end")));
+            ranges.push((Some((a, total.min(a1 + 1))), format!("from inside {label} term (#{t}) one byte across its border")));
+            ranges.push((Some((a, rng.random_range(a + 1..=total))), format!("from inside {label} term (#{t}) to a random later offset")));
+            ranges.push((Some((a0, rng.random_range(a0 + 1..=total))), format!("from the first byte of {label} term (#{t}) to a random later offset")));
+        }
+        let cache_dir = tempfile::tempdir().unwrap();
+        let cached = new_client_at(env, base, Some(&CacheConfig { cache_directory: cache_dir.path().to_path_buf(), cache_size: 1 << 30 }));
+        for (ri, (r, label)) in ranges.iter().enumerate() {
+            let expected = match r { Some((a, b)) => &file[*a as usize..*b as usize], None => &file[..] };
+            for mode in ["no chunk cache", "chunk cache, first run", "chunk cache, second run"] {
+                if mode != "no chunk cache" && ri % 2 == 1 {
+                    continue;
+                }
+                let out = env.scratch.path().join(format!("getfile-{ri}.bin"));
+                let _ = std::fs::remove_file(&out);
+                let ctx = format!("{}; RemoteClient::get_file ({writer}, {mode}) against a CAS endpoint that lists the terms overlapping the range and the offset into the first of them; request = {}{}", plan.describe(), label, r.map(|(a, b)| format!(": bytes [{a}, {b}) of {total}")).unwrap_or_default());
+                let res = get_file_run(env, if mode == "no chunk cache" { &plain } else { &cached }, hash, r.map(|(a, b)| FileRange { start: a, end: b }), out.clone());
+                check_output(&ctx, res, &out, expected, None);
+            }
+        }
+    }
+}
+
+fn new_client_at(env: &Env, endpoint: &str, cache: Option<&CacheConfig>) -> Arc<RemoteClient> {
+    Arc::new(RemoteClient::new(env.tp.clone(), endpoint, None, &None, &cache.cloned(), PathBuf::new(), false))
+}
+
+// ---------------------------------------------------------------------------------------------------------------------------------
+// a misbehaving blob store: the client must fail or deliver the right bytes, never Ok with wrong bytes
+// ---------------------------------------------------------------------------------------------------------------------------------
+
+fn faulty_store_section(env: &Env, rng: &mut StdRng, base: &str, store: &Arc<Mutex<Store>>, plan_id: u64) {
+    // one xorb of equal-sized (512-byte) chunks, at least 9 of them; terms strictly inside ONE fetch range that does not begin at chunk 0
+    let mut p = loop {
+        let p = make_plan(rng, base, store, plan_id, "equal-sized chunks, terms inside a wider fetch range", 1, 2, FetchStyle::WholeXorb, true);
+        if p.xorbs[0].chunks.len() >= 9 {
+            break p;
+        }
+    };
+    p.terms = vec![(0, 3, 5), (0, 5, 7), (0, 4, 6)];
+    let x = &p.xorbs[0];
+    p.fetch = HashMap::from([(x.hash.into(), vec![fetch_entry(base, x, 2, 8, "")])]);
+    let fetch = Arc::new(p.fetch.clone());
+    let expected: Vec<u8> = (0..p.terms.len()).flat_map(|t| p.term_data(t)).collect();
+    let last_stored = x.stored_end[7] - x.stored_end[6];
+    for fault in [StoreFault::IgnoresRangeStart, StoreFault::Short(1), StoreFault::Short(last_stored), StoreFault::Short(last_stored + 3), StoreFault::NoContentLength] {
+        store.lock().unwrap().faults.insert(x.path.clone(), fault);
+        for parallel in [false, true] {
+            for with_cache in [false, true] {
+                let cache_dir = tempfile::tempdir().unwrap();
+                let cfg = CacheConfig { cache_directory: cache_dir.path().to_path_buf(), cache_size: 1 << 30 };
+                let client = new_client(env, if with_cache { Some(&cfg) } else { None });
+                let out = env.scratch.path().join("faulty.bin");
+                let _ = std::fs::remove_file(&out);
+                let what = match fault {
+                    StoreFault::IgnoresRangeStart => "ignores the start of the requested byte range and answers with bytes 0..=b of the object (Content-Length says so; the answer begins at a chunk boundary)".to_string(),
+                    StoreFault::Short(n) => format!("answers {n} bytes short of the requested range (Content-Length says so)"),
+                    StoreFault::NoContentLength => "answers the right bytes with chunked transfer encoding (no Content-Length)".to_string(),
+                };
+                let ctx = format!("{} (fetch range = chunks [2, 8) of the xorb, every chunk 512 bytes); blob store that {what}; {}, {}", p.describe(), if parallel { "reconstruct_file_to_writer_parallel" } else { "reconstruct_file_to_writer" }, if with_cache { "empty chunk cache" } else { "no chunk cache" });
+                match reconstruct(env, &client, parallel, p.api_terms(0, p.terms.len()), fetch.clone(), 0, None, out.clone()) {
+                    Err(e) => {
+                        if fault == StoreFault::NoContentLength {
+                            witness(format!("{ctx}: the call {e}"));
+                        }
+                    },
+                    Ok(n) => {
+                        let got = std::fs::read(&out).unwrap_or_default();
+                        if got != expected || n != expected.len() as u64 {
+                            let i = got.iter().zip(expected.iter()).position(|(a, b)| a != b).unwrap_or(got.len().min(expected.len()));
+                            witness(format!("{ctx}: the call returns Ok({n}) but the output ({} bytes) differs from the term data ({} bytes) first at offset {i}", got.len(), expected.len()));
+                        }
+                    },
+                }
+            }
+        }
+        store.lock().unwrap().faults.remove(&x.path);
+    }
+}
+
+// ---------------------------------------------------------------------------------------------------------------------------------
 // big plans (>= 4 GiB) served from the real disk cache
 // ---------------------------------------------------------------------------------------------------------------------------------
 
@@ -484,6 +668,25 @@ fn main() {
         make_plan(rng, &base, &store, plan_id, name, nx, nt, style, eq)
     };
     use FetchStyle::*;
+    // 0. get_file with the sequential writer runs in a child process (the switch is read once per process)
+    let getfile_only = std::env::args().any(|a| a == "--getfile-only");
+    let child = if getfile_only { None } else {
+        let mut cmd = std::process::Command::new(std::env::current_exe().unwrap());
+        cmd.arg("--getfile-only").env("HF_XET_RECONSTRUCT_WRITE_SEQUENTIALLY", "true").stdout(std::process::Stdio::piped()).stderr(std::process::Stdio::null());
+        Some(cmd.spawn().expect("spawn child"))
+    };
+    {
+        let shapes: [(usize, usize, FetchStyle); 7] = [(1, 1, WholeXorb), (1, 2, ExactSameUrl), (2, 3, Widened), (3, 7, ExactDistinctUrls), (3, 12, Widened), (6, 17, ExactSameUrl), (4, 25, Widened)];
+        let plans: Vec<Plan> = shapes.iter().enumerate().map(|(k, (nx, nt, style))| next(&mut rng, &format!("get_file #{k} ({style:?})"), *nx, *nt, *style, false)).collect();
+        get_file_section(&env, &mut rng, &base, &store, &plans);
+    }
+    if getfile_only {
+        println!("no violation found");
+        return;
+    }
+    eprintln!("get_file section done at {:?}", t0.elapsed());
+    faulty_store_section(&env, &mut rng, &base, &store, 1_000_000);
+    eprintln!("faulty store section done at {:?}", t0.elapsed());
     // 1. hand-made: two non-adjacent chunk ranges of ONE xorb (two fetch entries), equal-sized chunks, slow responses so that both
     //    downloads are in flight together
     for style in [ExactDistinctUrls, ExactSameUrl] {
@@ -529,5 +732,16 @@ fn main() {
     // 4. plans of 2^32 bytes and more
     big_plans(&env);
     eprintln!("section 4 done at {:?}", t0.elapsed());
+    if let Some(c) = child {
+        let out = c.wait_with_output().expect("child output");
+        let stdout = String::from_utf8_lossy(&out.stdout);
+        if let Some(l) = stdout.lines().find(|l| l.starts_with("WITNESS")) {
+            println!("{l}");
+            std::process::exit(1);
+        }
+        if out.status.code() != Some(0) {
+            witness(format!("the process running get_file with HF_XET_RECONSTRUCT_WRITE_SEQUENTIALLY=true died: {:?}", out.status));
+        }
+    }
     println!("no violation found");
 }
